@@ -696,7 +696,11 @@ func (s *Session) parseArgs(arg string) (args map[string]string, ok bool) {
 }
 
 func (s *Session) reset() {
-	s.enterState(READY)
+	if s.state != GREET {
+		// RSET does not stand in for the greeting: a session that has not said HELO/EHLO yet
+		// still has to before it may send MAIL.
+		s.enterState(READY)
+	}
 	s.from = nil
 	s.recipients = nil
 }
